@@ -4,6 +4,7 @@ let rec parse nat_of_int (s : string) : Model.gid =
   | "SO2" -> Model.GSO2
   | "SE2" -> Model.GSE2
   | "SO3" -> Model.GSO3
+  | "SE3" -> Model.GSE3
   | _ when String.length s > 1 && s.[0] = 'R' ->
     Model.GRn (nat_of_int (int_of_string (String.sub s 1 (String.length s - 1))))
   | _ -> failwith ("unknown group " ^ s)
